@@ -8,6 +8,7 @@ import (
 	"strings"
 
 	"github.com/semihalev/sdns/internal/verif/vlib"
+	"github.com/semihalev/sdns/server"
 )
 
 // genPacket builds one packet for the scripted rigs: a DNS header that
@@ -145,6 +146,63 @@ func genStream(r *vlib.R, nframes int, idBase uint16) []byte {
 	return s
 }
 
+// scriptedPkt is a well-formed scripted query whose reply is exactly
+// 4 + rep*len(payload) bytes long.
+func scriptedPkt(id uint16, kind, rep byte, payload []byte) []byte {
+	h := []byte{byte(id >> 8), byte(id), 0x01, 0, 0, 1, 0, 0, 0, 0, 0, 0, kind, rep}
+	return append(h, payload...)
+}
+
+// genBoundaryStream pipelines small queries (the whole burst fits one read, so
+// nothing is flushed in between) whose replies fill the connection's drain
+// buffer to exactly drain+delta bytes with the last-but-one reply; a small
+// reply follows. Every value of delta around 0 is a different branch of
+// tcpStream.stage's "flush first?" arithmetic.
+func genBoundaryStream(r *vlib.R, drain, delta int, idBase uint16) []byte {
+	var s []byte
+	held := 0
+	id := idBase
+	add := func(kind, rep byte, payload []byte) {
+		id++
+		s = append(s, frame(scriptedPkt(id, kind, rep, payload))...)
+		held += 2 + 4 + int(rep)*len(payload)
+	}
+	kinds := []byte{kWrite, kLease, kWrite9}
+	for k, n := 0, 1+r.Intn(3); k < n; k++ {
+		// leave between 30 and 300 bytes for the filler
+		room := drain + delta - held - 2 - 4
+		if room < 400 {
+			break
+		}
+		share := (room - 30 - r.Intn(260)) / (n - k)
+		if k < n-1 {
+			share = share/2 + r.Intn(share/2+1)
+		}
+		pl := 20 + r.Intn(20)
+		rep := share / pl
+		if rep > 255 {
+			rep = 255
+		}
+		if rep < 1 {
+			rep = 1
+		}
+		add(vlib.Pick(r, kinds), byte(rep), r.Bytes(pl))
+	}
+	for drain+delta-held-2-4 > 300 { // still too far: add mid-size replies
+		add(kWrite, 10, r.Bytes(25))
+	}
+	fill := drain + delta - held - 2 - 4
+	if fill < 0 {
+		fill = 0
+	}
+	add(vlib.Pick(r, kinds), 1, r.Bytes(fill)) // staged total is now exactly drain+delta
+	add(kWrite, 1, r.Bytes(3+r.Intn(20)))
+	if r.Chance(1, 2) {
+		add(kLease, 2, r.Bytes(5+r.Intn(30)))
+	}
+	return s
+}
+
 func genChunks(r *vlib.R) string {
 	if r.Chance(1, 3) {
 		return "-"
@@ -223,6 +281,19 @@ func gen(r *vlib.R, n int, tier string, emit func(string)) {
 		emit(fmt.Sprintf("usrv run %d %d %02x", r.U64()%1000000, 40+r.Intn(60), vlib.Pick(r, []int{0xa5, 0xff, 0x33})))
 		emit(fmt.Sprintf("tsrv run %d %d %02x", r.U64()%1000000, 3+r.Intn(14), vlib.Pick(r, []int{0xa5, 0xff, 0x33})))
 		n -= 2
+	}
+	for _, m := range []string{"udp", "tcp"} {
+		emit("usrv cookie " + m)
+		n--
+	}
+	// 4a. stream bursts whose staged replies end within a few bytes of the drain-buffer size
+	drain := server.VerifC10Sizes()["tcp_drain"]
+	for delta := -5; delta <= 5; delta++ {
+		for rep := 0; rep < 2; rep++ {
+			emit(fmt.Sprintf("tcp conn %02x %s %s", vlib.Pick(r, []int{0xa5, 0xff, 0x5a}), vlib.Pick(r, []string{"-", "-", "4096"}),
+				vlib.Hex(genBoundaryStream(r, drain, delta, uint16(r.Intn(60000))))))
+			n--
+		}
 	}
 	// 4. scripted engines, model-compared
 	for n > 0 {
